@@ -66,6 +66,12 @@ func (f *CSVFormatter) writeValue(s string) {
 }
 
 func (f *CSVFormatter) prepareLine(line interface{}) map[string]interface{} {
+	// A missing value (such as the birth of an individual that has none) has
+	// no columns.
+	if gedcom.IsNil(line) {
+		return nil
+	}
+
 	if m, ok := line.(gedcom.ObjectMapper); ok {
 		return m.ObjectMap()
 	}
